@@ -5,7 +5,7 @@ from ..model import AnalysisError
 from ..norm import Normalizer, show_term
 from ..vgraph import NONE, Closure, show, walk
 from .C06 import check_flatten
-from .util import bind_args, fields, live, one
+from .util import bind_args, entails, fields, live, one
 
 EXPLANATION = (
     "Index discipline: C09.1 batch_indices == reshape(perm[:N - N % B], (-1, B)) with perm one jr.permutation(key, N) (or arange(N)); "
@@ -50,9 +50,9 @@ def check(s):
     loc = s.loc("AbstractBuffer", "batch_indices")
     cases = set()
     for p in live(s.paths(b, "AbstractBuffer", "batch_indices")):
-        nokey = None
-        for t, v in p.conds:
-            nokey = v
+        nokey = entails(nz, p.conds, ("cmp", "Is", ("param", "key"), NONE))
+        if nokey is None:
+            raise AnalysisError(f"{con}: a path does not decide whether a key was given")
         cases.add(nokey)
         tag = "[key=None]" if nokey else "[key]"
         bind = {"self": self_, "key": ("param", "key"), "B": ("param", "batch_size")}
@@ -69,8 +69,9 @@ def check(s):
         s.ob("C09.1", con + tag, ok, "batch_indices == perm[:N − N % B].reshape(−1, B) with perm a single permutation of range(N)", loc,
              key="batch-indices-formula", detail=f"code: {show_term(got, 400)}\nreference: {show_term(first, 400)}",
              necessary_for="every sample is used in at most one minibatch and exactly floor(N/B)*B samples are used")
-        perms = [x for x in walk(p.ret) if isinstance(x, tuple) and x and x[0] == "call" and x[1] in (("global", "jax.random.permutation"), ("global", "jax.numpy.arange"))]
-        s.ob("C09.1", con + tag, len(perms) == 1, "one index source (one permutation)", loc, key="one-permutation", detail=str(len(perms)))
+        perms = [x for x in walk(p.ret) if isinstance(x, tuple) and x and x[0] == "call" and isinstance(x[1], tuple) and x[1][0] == "global" and x[1][1].startswith("jax.random.")]
+        s.ob("C09.1", con + tag, len(perms) == (0 if nokey else 1), "one index source: a single random permutation with a key, none without", loc, key="one-permutation",
+             detail=str(len(perms)))
     if cases != {True, False}:
         raise AnalysisError(f"{con}: expected keyed and key-less cases")
     # ---------------------------------------------------------------- C09.2
@@ -164,6 +165,22 @@ def check(s):
                 okb = (m.get("policy") == ("param", "$pol") and m.get("opt_state") == ("param", "$opt") and m.get("rollout_buffer") == ("param", "buffer")
                        and m.get("key") == ("param", "$k")
                        and out == ("tuple", (("tuple", (("item", te[0], 0), ("item", te[0], 1))), ("item", te[0], 2))))
+            if not okb:
+                # the body does not call train_epoch literally (the flattening hoisted out of the loop, the epoch split into helpers): it
+                # must still compute what train_epoch(policy, opt_state, buffer, key=<scanned key>) computes - compared with train_epoch
+                # looked through on both sides
+                b4i = s.builder(inline={"train_epoch"})
+                nzi = Normalizer(b4i)
+                p5i = one(s.paths(b4i, "PPO", "train"), con5)
+                sci = [x for x in walk(p5i.ret) if isinstance(x, tuple) and x and x[0] == "scan"]
+                sci = [x for x in sci if nzi.canon(x[3]) == nzi.canon(want_xs)]
+                if len(sci) == 1 and isinstance(sci[0][1], Closure):
+                    got_i = b4i.apply(sci[0][1], (carry, ("param", "$k")), ())
+                    W = s.ref(b4i, "self.train_epoch(pol, opt, buffer, key=k)",
+                              {"self": self_, "pol": ("param", "$pol"), "opt": ("param", "$opt"), "buffer": ("param", "buffer"), "k": ("param", "$k")})
+                    want_i = ("tuple", (("tuple", (("item", W, 0), ("item", W, 1))), ("item", W, 2)))
+                    okb = nzi.canon(got_i) == nzi.canon(want_i)
+                    out = got_i
             s.ob("C09.4", con5, okb, "body: train_epoch(policy, opt_state, buffer, key=<scanned key>) — the shuffle key is the epoch's own key",
                  loc5, key="epoch-scan-body", detail=show(out, maxlen=300))
         s.ob("C09.4", con5, ret[1][0] == ("item", ("item", sc, 0), 0) and ret[1][1] == ("item", ("item", sc, 0), 1),
